@@ -11,11 +11,13 @@ def build(ctx):
     if os.path.exists(lock) and not os.path.exists(os.path.join(wd, "Cargo.lock")):
         import shutil
         shutil.copy(lock, os.path.join(wd, "Cargo.lock"))
-    env = dict(os.environ, CARGO_NET_OFFLINE="true", CARGO_TARGET_DIR=os.path.join(ctx.here, ".work", "replay-target"))
+    import hashlib
+    tdir = os.path.join(ctx.here, ".work", "replay-target-" + hashlib.sha1(os.path.abspath(ctx.repo).encode()).hexdigest()[:8])
+    env = dict(os.environ, CARGO_NET_OFFLINE="true", CARGO_TARGET_DIR=tdir)
     p = subprocess.run(["cargo", "build", "--offline"], cwd=wd, env=env, capture_output=True, text=True, timeout=1800)
     if p.returncode != 0:
         raise RuntimeError("replay crate build failed: " + p.stderr[-800:])
-    return os.path.join(ctx.here, ".work", "replay-target", "debug", "qx_replay")
+    return os.path.join(tdir, "debug", "qx_replay")
 
 
 def run(ctx, replay, witness):
@@ -32,4 +34,19 @@ def run(ctx, replay, witness):
 
 
 def search(ctx, spec, failure):
+    """Look for a concrete failing input of a refuted Verus obligation by enumerating a small grid through the real
+    code (a search for a counterexample to report — not evidence of correctness)."""
+    import itertools
+    if spec.get("kind") != "api-enum":
+        return None
+    keys = sorted(spec["grid"].keys())
+    for combo in itertools.product(*[spec["grid"][k] for k in keys]):
+        w = dict(zip(keys, combo))
+        try:
+            if run(ctx, {"kind": "api", "name": spec["name"]}, w):
+                failure["replay"] = {"kind": "api", "name": spec["name"]}
+                failure["replay_output"] = getattr(ctx, "last_replay_output", "")
+                return w
+        except Exception:
+            continue
     return None
